@@ -46,6 +46,7 @@ static void collectGlobals(const Value* v, std::set<const Value*>& seen) {
     if (auto* c = dyn_cast<Constant>(v)) for (auto& o : c->operands()) collectGlobals(o.get(), seen);
 }      // functions whose body is skipped
 static const DataLayout* DL;
+static bool atomicHook = false;   // module defines verif_atomic_load64
 static int anonCnt = 0;
 
 [[noreturn]] static void die(const std::string& s) { std::cerr << "ir2c: " << s << std::endl; exit(2); }
@@ -294,7 +295,7 @@ static std::string fname(const Function* f) {
         {"_ZdlPvm", "__ir_delete2"}, {"_ZdaPvm", "__ir_delete2"}, {"__cxa_allocate_exception", "__ir_alloc_exception"},
         {"_ZSt17__throw_bad_allocv", "__ir_throw0"}, {"_ZSt20__throw_length_errorPKc", "__ir_throw1"}, {"_ZSt24__throw_out_of_range_fmtPKcz", "__ir_throw1"},
         {"_ZSt19__throw_logic_errorPKc", "__ir_throw1"}, {"_ZSt20__throw_out_of_rangePKc", "__ir_throw1"}, {"_ZSt25__throw_bad_function_callv", "__ir_throw0"},
-        {"_ZSt28__throw_bad_array_new_lengthv", "__ir_throw0"}, {"__cxa_pure_virtual", "__ir_throw0"}, {"_ZSt9terminatev", "__ir_throw0"}, {"__assert_fail", "__ir_assert_fail"}};
+        {"_ZSt28__throw_bad_array_new_lengthv", "__ir_throw0"}, {"__cxa_pure_virtual", "__ir_pure_virtual"}, {"_ZSt9terminatev", "__ir_throw0"}, {"__assert_fail", "__ir_assert_fail"}};
     auto b = builtin.find(f->getName().str());
     if (b != builtin.end()) return b->second;
     return sanitize(f->getName().str());
@@ -321,7 +322,7 @@ static void emitCall(FuncCtx& fc, std::ostringstream& out, const CallBase* cb) {
         // constant length: C library call (CBMC's model is exact there); symbolic length: explicit byte loop
         // (CBMC 6.11 mis-models memset/memcpy with a symbolic length at a symbolic offset inside a struct member array)
         bool constLen = n.startswith("llvm.mem") && isa<ConstantInt>(cb->getArgOperand(2));
-        if (n.startswith("llvm.memcpy")) { out << "  " << (constLen ? "memcpy" : "__ir_memcpy_n") << "((void*)" << args[0] << ", (const void*)" << args[1] << ", " << args[2] << ");\n"; return; }
+        if (n.startswith("llvm.memcpy")) { out << "  " << (constLen ? "memmove" /* llvm.memcpy allows dst == src (struct self-assignment); C memcpy does not */ : "__ir_memcpy_n" /* forward byte copy: correct for disjoint and for identical regions */) << "((void*)" << args[0] << ", (const void*)" << args[1] << ", " << args[2] << ");\n"; return; }
         if (n.startswith("llvm.memmove")) { out << "  " << (constLen ? "memmove" : "__ir_memmove_n") << "((void*)" << args[0] << ", (const void*)" << args[1] << ", " << args[2] << ");\n"; return; }
         if (n.startswith("llvm.memset")) { out << "  " << (constLen ? "memset" : "__ir_memset_n") << "((void*)" << args[0] << ", " << args[1] << ", " << args[2] << ");\n"; return; }
         if (n.startswith("llvm.cttz")) { out << "  " << lhs << "__ir_cttz" << bits(cb) << "(" << args[0] << ");\n"; return; }
@@ -362,6 +363,14 @@ static void emitFunction(const Function& F, bool protoOnly = false) {
     if (args.empty() && !F.isVarArg()) args = "void";
     std::string sig = decl(F.getReturnType(), fname(&F) + "(" + args + ")");
     if (!aliases.count(F.getName().str()) && !F.getName().startswith("__CPROVER_")) protos << sig << ";\n";
+    if (protoOnly && !F.isDeclaration() && !aliases.count(F.getName().str()) && !stubFuncs.count(F.getName().str())) {
+        // address taken (vtable slot, callback) but body not lowered: an indirect call that reaches it must not pass
+        // silently as a side-effect-free nondet call - make it an explicit event (add the function to the unit's extra_roots)
+        bodies << sig << " {\n  __ir_trap();\n";
+        if (!F.getReturnType()->isVoidTy()) bodies << "  { " << decl(F.getReturnType(), "r") << "; memset(&r, 0, sizeof r); return r; }\n";
+        bodies << "}\n";
+        return;
+    }
     if (protoOnly || F.isDeclaration() || stubFuncs.count(F.getName().str())) return;
 
     // name all values & blocks
@@ -425,6 +434,13 @@ static void emitFunction(const Function& F, bool protoOnly = false) {
                 std::string e;
                 auto U = [&](unsigned i) { return b < 32 ? "((uint32_t)" + op(i) + ")" : op(i); }; // avoid int promotion surprises
                 auto S = [&](unsigned i) { return sval(fc, I.getOperand(i)); };
+                // ptrtoint(P) - ptrtoint(Q) (what C++ pointer subtraction lowers to): same value, but written so that CBMC's
+                // simplifier can fold it when both point into the same object (offset difference); see __IR_PTRDIFF
+                if (bo->getOpcode() == Instruction::Sub && b == 64 && isa<PtrToIntInst>(bo->getOperand(0)) && isa<PtrToIntInst>(bo->getOperand(1))) {
+                    out << "  " << L << " = __IR_PTRDIFF(" << val(fc, cast<PtrToIntInst>(bo->getOperand(0))->getOperand(0))
+                        << ", " << val(fc, cast<PtrToIntInst>(bo->getOperand(1))->getOperand(0)) << ");\n";
+                    continue;
+                }
                 switch (bo->getOpcode()) {
                 case Instruction::Add: e = (nsw && b >= 32) ? "(" + T + ")(" + S(0) + " + " + S(1) + ")" : U(0) + " + " + U(1); break;
                 case Instruction::Sub: e = (nsw && b >= 32) ? "(" + T + ")(" + S(0) + " - " + S(1) + ")" : U(0) + " - " + U(1); break;
@@ -497,7 +513,13 @@ static void emitFunction(const Function& F, bool protoOnly = false) {
                 case Instruction::IntToPtr: out << "  " << L << " = " << castTo(dt) << "(uintptr_t)" << op(0) << ";\n"; break;
                 case Instruction::SIToFP: out << "  " << L << " = " << castTo(dt) << sval(fc, ci->getOperand(0)) << ";\n"; break;
                 case Instruction::UIToFP: out << "  " << L << " = " << castTo(dt) << op(0) << ";\n"; break;
-                case Instruction::FPToSI: out << "  " << L << " = " << castTo(dt) << "(" << sintTy(dt->getIntegerBitWidth()) << ")" << op(0) << ";\n"; break;
+                case Instruction::FPToSI: {
+                    // out-of-range float->int conversion is UB in the source: checked helper for the common widths
+                    unsigned b = dt->getIntegerBitWidth();
+                    if ((b == 32 || b == 64) && (st->isDoubleTy() || st->isFloatTy()))
+                        out << "  " << L << " = " << castTo(dt) << "__ir_fptosi" << b << "(" << op(0) << ");\n";
+                    else out << "  " << L << " = " << castTo(dt) << "(" << sintTy(b) << ")" << op(0) << ";\n";
+                    break; }
                 case Instruction::FPToUI: out << "  " << L << " = " << castTo(dt) << op(0) << ";\n"; break;
                 case Instruction::FPExt: case Instruction::FPTrunc: out << "  " << L << " = " << castTo(dt) << op(0) << ";\n"; break;
                 default: die("cast op");
@@ -514,8 +536,27 @@ static void emitFunction(const Function& F, bool protoOnly = false) {
                 out << "  " << L << " = " << castTo(I.getType()) << gepExpr(gep->getSourceElementType(), op(0), idx, iv) << ";\n";
                 continue;
             }
-            if (auto* ld = dyn_cast<LoadInst>(&I)) { out << "  " << L << " = *" << op(0) << ";\n"; continue; }
-            if (auto* st = dyn_cast<StoreInst>(&I)) { out << "  *" << op(1) << " = " << op(0) << ";\n"; continue; }
+            // CBMC 6.11 mis-resolves the dereference of a pointer VALUE whose symbolic offset lands on the first element of a
+            // nested sub-array (e.g. p = &A[i][1][0]; *p): the access is lost.  Direct lvalue indexing (A[i][1][0] = x) is
+            // handled correctly, so loads/stores whose address is a GEP are emitted as lvalue expressions of that GEP.
+            auto lval = [&](const Value* ptr) -> std::string {
+                if (auto* g = dyn_cast<GetElementPtrInst>(ptr)) {
+                    std::vector<std::string> idx; std::vector<const Value*> iv;
+                    for (auto it = g->idx_begin(); it != g->idx_end(); ++it) {
+                        iv.push_back(*it);
+                        if (auto* c = dyn_cast<ConstantInt>(*it)) idx.push_back(std::to_string(c->getSExtValue()));
+                        else idx.push_back(sval(fc, *it));
+                    }
+                    std::string a = gepExpr(g->getSourceElementType(), val(fc, g->getPointerOperand()), idx, iv);   // "&expr"
+                    return "(" + a.substr(1) + ")";
+                }
+                return "*" + val(fc, ptr);
+            };
+            if (auto* ld = dyn_cast<LoadInst>(&I)) {
+                // optional harness hook: every atomic 64-bit load is its own event (models concurrent writers)
+                if (ld->isAtomic() && I.getType()->isIntegerTy(64) && atomicHook && F.getName() != "verif_atomic_load64") { out << "  " << L << " = verif_atomic_load64((uint64_t*)" << op(0) << ");\n"; continue; }
+                out << "  " << L << " = " << lval(ld->getPointerOperand()) << ";\n"; continue; }
+            if (auto* st = dyn_cast<StoreInst>(&I)) { out << "  " << lval(st->getPointerOperand()) << " = " << op(0) << ";\n"; continue; }
             if (auto* br = dyn_cast<BranchInst>(&I)) {
                 if (br->isUnconditional()) out << "  " << jump(&BB, br->getSuccessor(0)) << "\n";
                 else out << "  if (" << op(0) << ") " << jump(&BB, br->getSuccessor(0)) << " else " << jump(&BB, br->getSuccessor(1)) << "\n";
@@ -720,7 +761,31 @@ int main(int argc, char** argv) {
     auto M = parseIRFile(argv[1], err, ctx);
     if (!M) { err.print("ir2c", errs()); return 2; }
     DL = &M->getDataLayout();
+    {   // resolve function aliases (e.g. C1 = alias of C2 for constructors of explicitly instantiated templates) to their aliasee,
+        // so that calls through an alias are ordinary direct calls (and --alias on the aliasee covers them)
+        std::vector<GlobalAlias*> gas;
+        for (auto& A : M->aliases()) gas.push_back(&A);
+        for (auto* A : gas) {
+            auto* F = dyn_cast<Function>(A->getAliasee()->stripPointerCasts());
+            if (!F) continue;
+            A->replaceAllUsesWith(F->getType() == A->getType() ? (Constant*)F : ConstantExpr::getBitCast(F, A->getType()));
+            A->eraseFromParent();
+        }
+    }
+    atomicHook = M->getFunction("verif_atomic_load64") && !M->getFunction("verif_atomic_load64")->isDeclaration();
     if (!rewriteOut.empty()) {
+        if (atomicHook) {
+            Function* hook = M->getFunction("verif_atomic_load64");
+            std::vector<LoadInst*> todo;
+            for (auto& F : *M) { if (&F == hook) continue; for (auto& BB : F) for (auto& I : BB) if (auto* ld = dyn_cast<LoadInst>(&I)) if (ld->isAtomic() && ld->getType()->isIntegerTy(64)) todo.push_back(ld); }
+            for (auto* ld : todo) {
+                Value* p = ld->getPointerOperand();
+                Type* want = hook->getFunctionType()->getParamType(0);
+                if (p->getType() != want) p = new BitCastInst(p, want, "", ld);
+                CallInst* c = CallInst::Create(hook->getFunctionType(), hook, {p}, "", ld);
+                ld->replaceAllUsesWith(c); ld->eraseFromParent();
+            }
+        }
         // apply the substitutions at IR level (used for the native replay build, so that it runs the same program)
         for (auto& kv : aliases) {
             Function* r = M->getFunction(kv.first); Function* m = M->getFunction(kv.second);
@@ -736,6 +801,7 @@ int main(int argc, char** argv) {
     }
     for (auto& G : M->globals()) { globalNames[&G] = sanitize(G.getName().str()); gvByName[G.getName().str()] = &G; }
     for (auto& F : *M) { globalNames[&F] = fname(&F); fnByName[F.getName().str()] = &F; }
+    if (atomicHook) roots.insert("verif_atomic_load64");
     if (roots.empty()) die("--root required");
     for (auto& r : roots) if (!fnByName.count(r)) die("root not found: " + r);
     for (auto& kv : aliases) if (!fnByName.count(kv.second)) die("alias target not found: " + kv.second);
